@@ -114,8 +114,16 @@ fn note(log: &Mutex<DestLog>, e: &impl Entry) {
     }
 }
 
-/// synchronous recorder: what it accepts is delivered at once
-struct RecSink(Arc<Mutex<DestLog>>);
+/// synchronous recorder: what it accepts is delivered at once; its destructor may take a while
+/// (`drop_us`): a runtime test sink is destroyed while the global's runtime-sink map is locked
+struct RecSink(Arc<Mutex<DestLog>>, u64);
+impl Drop for RecSink {
+    fn drop(&mut self) {
+        if self.1 > 0 {
+            std::thread::sleep(Duration::from_micros(self.1));
+        }
+    }
+}
 impl AnyEntrySink for RecSink {
     fn append_any(&self, e: impl Entry + Send + 'static) {
         note(&self.0, &e);
@@ -202,9 +210,13 @@ impl Worker {
             .unwrap();
         Worker { tx }
     }
-    fn run(&self, job: Job) -> Value {
+    fn start(&self, job: Job) -> mpsc::Receiver<Value> {
         let (rtx, rrx) = mpsc::channel();
         self.tx.send((job, rtx)).unwrap();
+        rrx
+    }
+    fn run(&self, job: Job) -> Value {
+        let rrx = self.start(job);
         match rrx.recv_timeout(Duration::from_secs(30)) {
             Ok(v) => v,
             Err(_) => json!({"out": "hang"}),
@@ -311,8 +323,13 @@ fn replay_one(lane: &mut Lane, b: &Value, seed: u64) -> Value {
     let mut next_entry: u64 = 1000;
     let mut nprobes = 0u64;
     let mut flavours = [0u64; 3];
+    let mut par_pairs = 0u64;
 
-    let new_sink = |sinks: &mut Sinks, is_async: bool| -> (BoxEntrySink, Option<AnyHandle>) {
+    // "pardrop": consecutive drops of two runtimes' guards are made at the same time on two threads,
+    // the runtime test sinks have slow destructors
+    let pardrop = b["pardrop"] == true;
+    let mut pre_done: Option<String> = None;
+    let new_sink = |sinks: &mut Sinks, is_async: bool, drop_us: u64| -> (BoxEntrySink, Option<AnyHandle>) {
         let log = Arc::new(Mutex::new(DestLog::default()));
         sinks.logs.push(log.clone());
         sinks.is_async.push(is_async);
@@ -324,7 +341,7 @@ fn replay_one(lane: &mut Lane, b: &Value, seed: u64) -> Value {
                 .build_boxed(LogStream(log));
             (q, Some(Box::new(h) as AnyHandle))
         } else {
-            (BoxEntrySink::new(RecSink(log)), None)
+            (BoxEntrySink::new(RecSink(log, drop_us)), None)
         }
     };
 
@@ -345,7 +362,7 @@ fn replay_one(lane: &mut Lane, b: &Value, seed: u64) -> Value {
         let got_out: String = match op {
             "Attach" => {
                 let is_async = rng.random_range(0..3) == 0;
-                let (s, h) = new_sink(&mut sinks, is_async);
+                let (s, h) = new_sink(&mut sinks, is_async, 0);
                 let keep = s.clone();
                 let h: AnyHandle = h.unwrap_or_else(|| Box::new(()));
                 let hslot = handle.clone();
@@ -385,7 +402,7 @@ fn replay_one(lane: &mut Lane, b: &Value, seed: u64) -> Value {
                 "ok".into()
             }
             "SetTL" => {
-                let (s, _) = new_sink(&mut sinks, false);
+                let (s, _) = new_sink(&mut sinks, false, 0);
                 let r = lane.workers[tperm[mt - 1]].run(Box::new(move |w| {
                     match in_ctx(&rts, any_c, fl, || util::catch(|| (g.set_tl)(s))) {
                         Ok(guard) => {
@@ -408,7 +425,8 @@ fn replay_one(lane: &mut Lane, b: &Value, seed: u64) -> Value {
                 r["out"].as_str().unwrap().to_string()
             }
             "SetRTFor" | "SetRTCur" => {
-                let (s, _) = new_sink(&mut sinks, false);
+                let slow = if pardrop { [10u64, 100, 1000, 5000, 50_000][rng.random_range(0..5)] } else { 0 };
+                let (s, _) = new_sink(&mut sinks, false, slow);
                 let real = rc(mc);
                 // the two install functions are interchangeable inside the runtime
                 let use_cur = op == "SetRTCur" || (real != 0 && rng.random::<bool>());
@@ -429,6 +447,34 @@ fn replay_one(lane: &mut Lane, b: &Value, seed: u64) -> Value {
                     }
                 }));
                 r["out"].as_str().unwrap().to_string()
+            }
+            "DropRT" if pre_done.is_some() => pre_done.take().unwrap(),
+            "DropRT" if pardrop && i + 1 < steps.len() && steps[i + 1]["op"] == "DropRT" && steps[i + 1]["c"] != st["c"] => {
+                // this drop and the next one (another runtime's guard) at the same time
+                let bar = Arc::new(std::sync::Barrier::new(2));
+                let mut rx = Vec::new();
+                for (wi, stp) in [st, &steps[i + 1]].into_iter().enumerate() {
+                    let real = rc(stp["c"].as_u64().unwrap() as usize);
+                    let guards = rtg.clone();
+                    let bar = bar.clone();
+                    let off = rng.random_range(0..40u64);
+                    rx.push(lane.workers[wi].start(Box::new(move |_| {
+                        let guard = guards.lock().unwrap().remove(&real);
+                        bar.wait();
+                        std::thread::sleep(Duration::from_micros(off));
+                        match util::catch(|| drop(guard)) {
+                            Ok(()) => json!({"out": "ok"}),
+                            Err(m) => json!({"out": "panic", "msg": m}),
+                        }
+                    })));
+                }
+                let outs: Vec<String> = rx.iter().map(|r| match r.recv_timeout(Duration::from_secs(30)) {
+                    Ok(v) => v["out"].as_str().unwrap().to_string(),
+                    Err(_) => "hang".to_string(),
+                }).collect();
+                pre_done = Some(outs[1].clone());
+                par_pairs += 1;
+                outs[0].clone()
             }
             "DropRT" => {
                 let real = rc(mc);
@@ -467,7 +513,8 @@ fn replay_one(lane: &mut Lane, b: &Value, seed: u64) -> Value {
             if op == "SetRTCur" && mc == 0 { drift.push(rec) } else { mism.push(rec) }
         }
         // ---- probes: every caller appends once; the model says where the entry must arrive
-        if probe {
+        // (not between two drops made at the same time: the matrix after the second one is the oracle)
+        if probe && pre_done.is_none() {
             let dest = &st["dest"];
             let base = rng.random_range(0..3u32);
             for t in 1..=nthreads {
@@ -610,7 +657,7 @@ fn replay_one(lane: &mut Lane, b: &Value, seed: u64) -> Value {
         lane.next_type += 1;
     }
     json!({"id": id, "global": g.name, "mismatches": mism, "drift": drift, "probes": nprobes, "steps": steps.len(),
-           "ctx_flavours": flavours, "sinks": sinks.logs.len(), "async_sinks": sinks.is_async.iter().filter(|x| **x).count()})
+           "ctx_flavours": flavours, "concurrent_guard_drops": par_pairs, "sinks": sinks.logs.len(), "async_sinks": sinks.is_async.iter().filter(|x| **x).count()})
 }
 
 fn cmd_replay(a: &HashMap<String, String>) {
@@ -673,6 +720,13 @@ struct Race {
     flush_us: u64,
     #[serde(default)]
     slow_us: u64,
+    /// observer threads calling is_attached() (obs_n calls each, obs_pace_us apart)
+    #[serde(default)]
+    observers: u64,
+    #[serde(default)]
+    obs_n: u64,
+    #[serde(default)]
+    obs_pace_us: u64,
 }
 
 const TAGS: [&str; 3] = ["1", "2", "3"];
@@ -729,8 +783,24 @@ fn run_race(sc: &Race, type_idx: &mut usize) {
     P_SEED.store(sc.seed, std::sync::atomic::Ordering::Relaxed);
     P_MAX_US.store(sc.max_us, std::sync::atomic::Ordering::Relaxed);
     P_PERMILLE.store(sc.permille, std::sync::atomic::Ordering::Relaxed);
-    let start = Arc::new(std::sync::Barrier::new(sc.appenders as usize + sc.ctls.len()));
+    let start = Arc::new(std::sync::Barrier::new(sc.appenders as usize + sc.ctls.len() + sc.observers as usize));
     let mut threads = Vec::new();
+    for o in 1..=sc.observers {
+        let start = start.clone();
+        let (n, pace) = (sc.obs_n, sc.obs_pace_us);
+        threads.push(std::thread::spawn(move || {
+            start.wait();
+            let p = 100 + o as i64;
+            for _ in 0..n {
+                trace::evi("ObsStart", &[("p", p)]);
+                match util::catch(|| (g.is_attached)()) {
+                    Ok(v) => trace::evi("ObsEnd", &[("p", p), ("v", v as i64)]),
+                    Err(_) => trace::evi("Panic", &[("p", p)]),
+                };
+                std::thread::sleep(Duration::from_micros(pace));
+            }
+        }));
+    }
     for p in 1..=sc.appenders {
         let start = start.clone();
         let (n, pace) = (sc.n, sc.pace_us);
